@@ -57,6 +57,14 @@ def explore(run, scale=1):
         _, result, bs = res
         h = bs.hex()
         run.count("subset:emitted")
+        # the IR goes to the driver too: `intrun` = the range-checked VM run that is the hypothesis of C06_agree_int
+        int_only = all(t == "int" for t in p.ptys) and p.ret == "int"
+        have_ir = False
+        if int_only:
+            try:
+                have_ir = d.ask("irprog " + implrun.program_sexp(result.IRModule.Functions, result.IRModule.Globals)) == "ok"
+            except BaseException:
+                have_ir = False
         for k in range(4):
             args = gen_wasm.gen_args(rng, p.ptys, big=(k == 3 or ring))
             want, exact = p.evaluate(args)
@@ -70,6 +78,18 @@ def explore(run, scale=1):
             else: wv = "trap"
             if not (isinstance(wt[1], float) and wt[1] != wt[1]) and wv != ln:
                 run.mismatch("evaluator-vs-wasmtime", inp, ln, wv)
+            if have_ir:
+                ir = d.ask("intrun 400 f " + " ".join(str(a) for a in args))
+                run.count("intrun:" + ir.split(" ")[0])
+                if ir.startswith("done "):
+                    # instance of C06_agree_int on the real IR and the real bytes: the VM run stays inside i32 and returns v
+                    v = int(ir.split(" ")[1])
+                    if not (wt[0] == "ok" and wt[1] == wasmrun.to_i32(v)):
+                        run.fail("agree", dict(inp, model_vm=v, wasm=wv), "f(%s): the range-checked VM run returns %d, the WebAssembly module %s\n%s" % (args, v, wv, src), key="agree:int-domain")
+                    if vm[0] != "ok" or vm[1] != v:
+                        run.mismatch("intrun-vs-vm", inp, ir, str(vm[:2]))
+                elif exact and want != "div0" and not ir.startswith("not-intfunc"):
+                    run.mismatch("intrun-vs-harness-exactness", inp, ir, "harness: exact, value %r" % (want,))
             judged = (exact and want != "div0") or (ring and want != "div0")
             run.case((src, opt, tuple(args)), nontrivial=judged, sample=dict(inp, vm=str(vm[1]), wasm=wv) if (judged and len(run.samples) < 3 and p.ret == "float") else None)
             if want == "div0":
